@@ -5,6 +5,7 @@ import Driver.SfP
 import Gomjml.Core.Cli
 import Driver.ApiP
 import Driver.HtmlP
+import Driver.TagP
 /-! Line-protocol driver (E3): first word selects a sub-protocol, one output line per input line.
     Imports only core-only Model/Spec modules so that it links as a `lean_exe`. -/
 open Gomjml
@@ -29,6 +30,7 @@ def handle (line : String) : String :=
   | "pick" :: args => Driver.ApiP.pickHandle args
   | "layout" :: args => Driver.HtmlP.layoutHandle args
   | "oracle" :: args => Driver.HtmlP.oracleHandle args
+  | "tag" :: args => Driver.TagP.handle args
   | _ => "bad-request"
 
 partial def loop (hin hout : IO.FS.Stream) : IO Unit := do
